@@ -1,5 +1,12 @@
-(* C10 — property theorems (bootstrap stage; see DESIGN.md section 6). *)
-From Verif Require Import Inflate.
-Theorem C10_spec_inflater_runs : status (inflate [] [3;0]) = Done /\ out (inflate [] [3;0]) = [].
-Proof. vm_compute. split; reflexivity. Qed.
-Print Assumptions C10_spec_inflater_runs.
+(* C10 — property theorems.  Model: WModel/{LZ77,Codes,Encode,Compressor,WriterSM}.v — the pure-Go writer (acceleration level 0), compared byte for byte with the implementation on every run; the assembly levels are tied to it by the run-time contract checks (DESIGN.md 4.3).
+   Only statements, each closed by `exact`, followed by Print Assumptions. *)
+From Verif Require Import FinalSpec WriterTheorems WriterStateProofs TraceContent.
+Open Scope N_scope.
+
+(* after any Writes and Flushes, a Flush returns nil and leaves whole bytes at the destination (nothing
+   stays in the bit accumulator) which the reference inflater decodes to all the data written so far,
+   then asks for more input (no corruption); premise as in C01 *)
+Theorem C10_flush : C10_statement.
+Proof. exact WriterTheorems.C10_flush. Qed.
+Print Assumptions C10_flush.
+(* "writing more and closing later keeps the stream valid" is C01 for the longer history *)
